@@ -6,7 +6,7 @@
 package absnfs
 
 import (
-	"math"
+	"sort"
 
 	"github.com/absfs/absfs"
 )
@@ -28,6 +28,7 @@ func (fm *FileHandleMap) Allocate(f absfs.File) uint64 {
 		if existing, found := fm.pathHandles[node.path]; found {
 			// Update the file reference (may have newer attrs) and return existing handle
 			fm.handles[existing] = f
+			fm.touch(existing)
 			return existing
 		}
 	}
@@ -44,6 +45,7 @@ func (fm *FileHandleMap) Allocate(f absfs.File) uint64 {
 	}
 
 	fm.handles[handle] = f
+	fm.touch(handle)
 
 	// Record path mapping for NFSNode files
 	if node, ok := f.(*NFSNode); ok && node.path != "" {
@@ -60,34 +62,53 @@ func (fm *FileHandleMap) Allocate(f absfs.File) uint64 {
 		if evictCount < 1 {
 			evictCount = 1
 		}
-		// Find the lowest handle numbers (oldest) to evict
-		minHandle := uint64(math.MaxUint64)
-		for h := range fm.handles {
-			if h < minHandle {
-				minHandle = h
-			}
+		// Evict the entries issued longest ago. Handle ids are recycled, so a
+		// low id is not necessarily an old entry: age is the issue sequence
+		// number (entries without one count as oldest, lowest id first).
+		type aged struct {
+			h   uint64
+			seq uint64
 		}
-		// Evict starting from the lowest handles
-		for h := minHandle; evictCount > 0; h++ {
+		candidates := make([]aged, 0, len(fm.handles))
+		for h := range fm.handles {
 			if h == handle {
-				// never evict the entry being issued: a recycled (lowest) id would
-				// otherwise be returned to the caller already dead
+				// never evict the entry being issued
 				continue
 			}
-			if file, exists := fm.handles[h]; exists {
-				// Clean up path mapping for evicted entries
-				if node, ok := file.(*NFSNode); ok {
-					delete(fm.pathHandles, node.path)
-				}
-				file.Close()
-				delete(fm.handles, h)
-				fm.freeHandles.PushValue(h)
-				evictCount--
+			candidates = append(candidates, aged{h, fm.allocSeq[h]})
+		}
+		sort.Slice(candidates, func(i, j int) bool {
+			if candidates[i].seq != candidates[j].seq {
+				return candidates[i].seq < candidates[j].seq
 			}
+			return candidates[i].h < candidates[j].h
+		})
+		if evictCount > len(candidates) {
+			evictCount = len(candidates)
+		}
+		for _, c := range candidates[:evictCount] {
+			file := fm.handles[c.h]
+			// Clean up path mapping for evicted entries
+			if node, ok := file.(*NFSNode); ok {
+				delete(fm.pathHandles, node.path)
+			}
+			file.Close()
+			delete(fm.handles, c.h)
+			delete(fm.allocSeq, c.h)
+			fm.freeHandles.PushValue(c.h)
 		}
 	}
 
 	return handle
+}
+
+// touch records that handle was just (re)issued. Caller holds the write lock.
+func (fm *FileHandleMap) touch(handle uint64) {
+	if fm.allocSeq == nil {
+		fm.allocSeq = make(map[uint64]uint64)
+	}
+	fm.seq++
+	fm.allocSeq[handle] = fm.seq
 }
 
 // Get retrieves the absfs.File associated with the given handle
@@ -127,6 +148,7 @@ func (fm *FileHandleMap) Release(handle uint64) {
 		}
 		f.Close()
 		delete(fm.handles, handle)
+		delete(fm.allocSeq, handle)
 		// Add the freed handle to the free list for reuse
 		fm.freeHandles.PushValue(handle)
 	}
@@ -144,6 +166,7 @@ func (fm *FileHandleMap) ReleaseAll() {
 
 	// Clear the path mapping and free list since all handles are now released
 	fm.pathHandles = make(map[string]uint64)
+	fm.allocSeq = make(map[uint64]uint64)
 	fm.freeHandles = NewUint64MinHeap()
 }
 
